@@ -19,10 +19,14 @@ type vfHost struct {
 	host.Host
 	id          peer.ID
 	connectFail map[peer.ID]bool
+	slow        bool
 }
 
 func (h *vfHost) ID() peer.ID { return h.id }
 func (h *vfHost) Connect(ctx context.Context, pi peer.AddrInfo) error {
+	if h.slow {
+		vfAdvance(time.Millisecond) // dialing takes (virtual) time
+	}
 	if ctx.Err() != nil {
 		return ctx.Err()
 	}
@@ -67,6 +71,7 @@ func VfRefresh() {
 		h.connectFail[ids[i]] = vfBool("member.connectFails")
 		pingFail[ids[i]] = vfBool("member.pingFails")
 	}
+	h.slow = vfBool("probesTakeTime")
 	pinged := map[peer.ID]int{}
 	done := make(chan struct{}, 8)
 	queryErr := vfBool("refreshQueryFails")
@@ -80,6 +85,12 @@ func VfRefresh() {
 		},
 		func(ctx context.Context, p peer.ID) error {
 			pinged[p]++
+			if h.slow {
+				vfAdvance(time.Millisecond)
+				if ctx.Err() != nil {
+					return ctx.Err()
+				}
+			}
 			if pingFail[p] {
 				return errors.New("ping failed")
 			}
@@ -94,6 +105,9 @@ func VfRefresh() {
 	var ch2 <-chan error
 	if closeEarly {
 		ch2 = r.Refresh(false)
+		if vfBool("closeLandsDuringTheLivenessProbe") {
+			vfAdvance(500 * time.Microsecond)
+		}
 		vfAssert(r.Close() == nil, "refresh/close")
 	}
 	// every request yields exactly one value and is then closed
